@@ -200,7 +200,8 @@ CORPUS = {
           (RUNNER, "                    if self.time >= end_time:\n                        break\n                    # Run time step.", "                    # Run time step."),
           (RUNNER, "                    self.dt = new_dt\n", "                    if self.time >= end_time:\n                        break\n                    self.dt = new_dt\n")),
         B("adaptive rule reads progress_interval", "R11.1", (SOLVER, "            window = options.adaptive_window\n", "            window = options.adaptive_window + (1 if options.progress_interval else 0)\n")),
-        B("update receives the data handler", "R11.1", (RUNNER, "                        dt,\n                        **dict(zip(self.names, self.values)),", "                        dt if self.data_handler.tmp_file is None else dt,\n                        **dict(zip(self.names, self.values)),")),
+        B("update receives the data handler", "R11.1", (RUNNER, "                        dt,\n                        **dict(zip(self.names, self.values)),", "                        dt if self.data_handler.tmp_file is None else 0.5 * dt,\n                        **dict(zip(self.names, self.values)),")),
+        E("update argument spelled as a conditional with equal arms", (RUNNER, "                        dt,\n                        **dict(zip(self.names, self.values)),", "                        dt if self.data_handler.tmp_file is None else dt,\n                        **dict(zip(self.names, self.values)),")),
         E("timestamp via a local", (RUNNER, '        group.attrs["timestamp"] = datetime.now().isoformat()', '        stamp = datetime.now().isoformat()\n        group.attrs["timestamp"] = stamp')),
     ],
     "C12": [
